@@ -488,7 +488,7 @@ PROPS["C13"]["e2"] = ["dup_keys"]
 PROPS["C13"]["trusted"] = E2_TRUST
 PROPS["C13"]["functions"] += ["E2: the serde_workaround!-generated visit_map of HmacGetSecretInput, get_assertion::{Request,Response}, get_info::Response, make_credential::Request and set_if_none (MIR)"]
 PROPS["C13"]["technique"] = "Kani/CBMC bounded model checking (status bytes) + symbolic path execution of rustc MIR (duplicate-member detection of the integer-keyed map visitors)"
-PROPS["C13"]["explanation"] += " E2: on every path through one iteration of each generated visit_map, a member's value is read only after check_is_already_set for that key."
+PROPS["C13"]["explanation"] += " E2: on every path through one iteration of each generated visit_map, a member's value is read only after check_is_already_set for that key and only on paths whose condition contains that check succeeding (a dropped error is reported)."
 PROPS["C13"]["outside"] = ["byte-level CBOR (ciborium) in both directions: integer keys on the wire, ordering, round trips", "unknown-key handling, defaults of absent members",
                            "more than one iteration of the key loop per path (the per-key check is local to an iteration)"]
 
